@@ -157,5 +157,5 @@ StartupOnce == \A t \in S : made[t] <= 1                                  \* C16
 TermOK == term => /\ \A t \in S : ran[t] = 1                              \* C01: termination only when everything ran
                   /\ coll = SeqFin                                        \* C02: = sequential interpretation
                   /\ \A t \in S : made[t] = (IF PredMap[t] = {} THEN 1 ELSE 0)
-ProgOK == WellFormed(Prog) /\ Consistent(Prog)
+ASSUME ProgOK == WellFormed(Prog) /\ Consistent(Prog)
 =============================================================================
